@@ -535,14 +535,14 @@ func c15Panics(c *Ctx, scope []*ssa.Function, completeOK, suitesOK, versionOK bo
 		"gmtls.prfAndHashForVersion":           {versionOK, "K-C15-version: Conn.vers only holds implemented versions and GMSSL is dispatched before this function"},
 	}
 	exempt := map[string]string{
-		"(*gmtls.halfConn).incSeq":                              "sequence number wrap-around after 2^64 records: by design a panic rather than nonce reuse (C07), not reachable by a handshake peer",
-		"(*gmtls.clientHelloMsg).marshal":                       "ALPN protocol of length 0 or > 255 in the local Config.NextProtos: configuration error of the caller, not peer input",
-		"(*gmtls.serverHelloMsg).marshal":                       "the selected ALPN protocol comes from Config.NextProtos or from a ClientHello extension whose one-byte length field bounds it to 1..255 (checked by clientHelloMsg.unmarshal)",
-		"gmtls.pickSignatureAlgorithm":                          "internal table consistency: lookupTLSHash knows every scheme isSupportedSignatureAlgorithm accepts from the package's own supportedSignatureAlgorithms list",
-		"(gmtls.finishedHash).hashForClientCertificate":         "ordering invariant inherited from crypto/tls: the handshake buffer is discarded only when no client certificate can follow (ClientAuth == NoClientCert, or no CertificateRequest was seen), and a CertificateVerify is only produced or processed when one was requested",
-		"gmtls.newConstantTimeHash$1":                           "only applied to sha1.New, whose hash implements ConstantTimeSum (macSHA1)",
-		"(*gmtls.ecdheKeyAgreement).processClientKeyExchange":   "curveForCurveID(ka.curveid) already succeeded in generateServerKeyExchange, which chose curveid from the supported list",
-		"(*gmtls.ecdheKeyAgreement).generateClientKeyExchange":  "curveForCurveID(ka.curveid) already succeeded in processServerKeyExchange, which rejects unknown curves with an error",
+		"(*gmtls.halfConn).incSeq":                               "sequence number wrap-around after 2^64 records: by design a panic rather than nonce reuse (C07), not reachable by a handshake peer",
+		"(*gmtls.clientHelloMsg).marshal":                        "ALPN protocol of length 0 or > 255 in the local Config.NextProtos: configuration error of the caller, not peer input",
+		"(*gmtls.serverHelloMsg).marshal":                        "the selected ALPN protocol comes from Config.NextProtos or from a ClientHello extension whose one-byte length field bounds it to 1..255 (checked by clientHelloMsg.unmarshal)",
+		"gmtls.pickSignatureAlgorithm":                           "internal table consistency: lookupTLSHash knows every scheme isSupportedSignatureAlgorithm accepts from the package's own supportedSignatureAlgorithms list",
+		"(gmtls.finishedHash).hashForClientCertificate":          "ordering invariant inherited from crypto/tls: the handshake buffer is discarded only when no client certificate can follow (ClientAuth == NoClientCert, or no CertificateRequest was seen), and a CertificateVerify is only produced or processed when one was requested",
+		"gmtls.newConstantTimeHash$1":                            "only applied to sha1.New, whose hash implements ConstantTimeSum (macSHA1)",
+		"(*gmtls.ecdheKeyAgreement).processClientKeyExchange":    "curveForCurveID(ka.curveid) already succeeded in generateServerKeyExchange, which chose curveid from the supported list",
+		"(*gmtls.ecdheKeyAgreement).generateClientKeyExchange":   "curveForCurveID(ka.curveid) already succeeded in processServerKeyExchange, which rejects unknown curves with an error",
 		"(*gmtls.ecdheKeyAgreementGM).generateClientKeyExchange": "curveForCurveID(ka.curveid) already succeeded in processServerKeyExchange, which rejects unknown curves with an error",
 	}
 	chg := c.Fn("gmtls", "(*halfConn).changeCipherSpec")
